@@ -5,6 +5,7 @@
  *   B dlen slen seed                         raw destination / source buffers (64-byte aligned) -> Setup event
  *   fill bpp stride_words boff x y w h vhi vlo           pixman_fill (bits = dst + boff)
  *   blt sbpp dbpp sstride dstride sboff dboff sx sy dx dy w h   pixman_blt (src buffer -> dst buffer)
+ *   blti (same arguments)                                        pixman_blt within the dst buffer (both offsets in it)
  *   D fmt w h stride gb ga seed              destination image inside a guard buffer (+ an identical twin)
  *   C n (x1 y1 x2 y2)*                       destination clip (both twins); n = -1: none
  *   S                                        log the Setup event
@@ -98,6 +99,21 @@ main (int argc, char **argv)
 	    vt_bool ("ret", ret);
 	    fc_log_store ("after", &dst);
 	    fc_log_store ("safter", &rawsrc);
+	    vt_end ();
+	}
+	else if (!strcmp (cmd, "blti"))
+	{
+	    int v[12], ret;
+	    fc_read_ints (in, v, 12);
+	    ret = pixman_blt ((uint32_t *)(dst.mem + v[4]), (uint32_t *)(dst.mem + v[5]), v[2], v[3], v[0], v[1],
+			      v[6], v[7], v[8], v[9], v[10], v[11]);
+	    vt_begin ("BltIn");
+	    vt_int ("sbpp", v[0]); vt_int ("dbpp", v[1]); vt_int ("sstride", v[2] * 4); vt_int ("dstride", v[3] * 4);
+	    vt_int ("soff", v[4]); vt_int ("doff", v[5]);
+	    vt_int ("sx", v[6]); vt_int ("sy", v[7]); vt_int ("dx", v[8]); vt_int ("dy", v[9]);
+	    vt_int ("w", v[10]); vt_int ("h", v[11]);
+	    vt_bool ("ret", ret);
+	    fc_log_store ("after", &dst);
 	    vt_end ();
 	}
 	else if (!strcmp (cmd, "D"))
